@@ -381,7 +381,7 @@ func checkC07(c *core.Ctx) []core.Floor {
 	core.ParallelFor(n, c.Workers, func(i int) { runC07(c, drv, i) })
 	return []core.Floor{{Key: "queries", Min: 2000}, {Key: "results_equal_to_reference", Min: 500}, {Key: "order_independence_checked", Min: 500},
 		{Key: "group_cols_0", Min: 20}, {Key: "group_cols_1", Min: 20}, {Key: "group_cols_2", Min: 20}, {Key: "group_cols_3", Min: 20},
-		{Key: "ref_by_alias", Min: 20}, {Key: "ref_by_qualifier", Min: 20}, {Key: "group_col_not_first", Min: 20}, {Key: "on_top_of_join", Min: 20}, {Key: "empty_input", Min: 5}}
+		{Key: "ref_by_alias", Min: 20}, {Key: "ref_by_qualifier", Min: 20}, {Key: "group_col_not_first", Min: 20}, {Key: "on_top_of_join", Min: 20}, {Key: "empty_input", Min: 5}, {Key: "group_by_same_named_columns_of_both_join_sides", Min: 20}}
 }
 
 func runC07(c *core.Ctx, drv string, idx int) {
@@ -418,7 +418,9 @@ func runC07(c *core.Ctx, drv string, idx int) {
 	}
 	dim := &proto.Stmt{Kind: "create", Table: "dim", Defs: []proto.ColDef{{Name: "k", Type: "int"}, {Name: "label", Type: "varchar", Len: 10}}}
 	dimRows := &proto.Stmt{Kind: "insert", Table: "dim", Rows: [][]proto.Val{{proto.Int(1), proto.Str("one")}, {proto.Int(1), proto.Str("uno")}, {proto.Int(7), proto.Str("seven")}}}
-	sc.setup = append(sc.setup, dim, dimRows)
+	dim2 := &proto.Stmt{Kind: "create", Table: "dim2", Defs: []proto.ColDef{{Name: "gi", Type: "int"}, {Name: "gj", Type: "int"}}}
+	dim2Rows := &proto.Stmt{Kind: "insert", Table: "dim2", Rows: [][]proto.Val{{proto.Int(1), proto.Int(23)}, {proto.Int(12), proto.Int(23)}, {proto.Int(5), proto.Int(3)}, {proto.Int(1), proto.Int(3)}, {proto.Int(7), proto.Int(99)}}}
+	sc.setup = append(sc.setup, dim, dimRows, dim2, dim2Rows)
 	if !applyAll(m, sc.setup) {
 		c.Inconclusive("generator", "C07 setup rejected by model")
 		return
@@ -428,6 +430,9 @@ func runC07(c *core.Ctx, drv string, idx int) {
 		join := ""
 		if r.Chance(1, 4) {
 			join = "dim"
+		} else if r.Chance(1, 6) {
+			join = "dim2"
+			c.Count("group_by_same_named_columns_of_both_join_sides", 1)
 		}
 		q0 := g.Agg7("p0", join)
 		st := randStyle(r)
